@@ -221,7 +221,8 @@ def main(chk):
     else:
         runs = [("2thr size1 maxo{0,1,inf} all faults", mc_cfg(2, {1}, {0, 1, 9}, {False}, 2, ALL_FAULTS)),
                 ("2thr size2 maxo{0,1} FIFO+LIFO faults connect/inv/drop", mc_cfg(2, {2}, {0, 1}, {False, True}, 2, ("connect", "inv", "drop"))),
-                ("3thr size1 maxo{0,1} 2 ops faults connect/inv", mc_cfg(3, {1}, {0, 1}, {False}, 2, ("connect", "inv"))),
+                ("3thr size1 maxo0 2 ops no faults", mc_cfg(3, {1}, {0}, {False}, 2, ())),
+                ("3thr size1 maxo1 2 ops no faults", mc_cfg(3, {1}, {1}, {False}, 2, ())),
                 ("3thr size2 maxo0 LIFO 2 ops no faults", mc_cfg(3, {2}, {0}, {True}, 2, ())),
                 ("3thr size1 maxo{0,1} 1 op all faults", mc_cfg(3, {1}, {0, 1}, {False}, 1, ALL_FAULTS, maxclock=2)),
                 ("2thr size1 maxo1 recycle-by-age", mc_cfg(2, {1}, {1}, {False}, 2, ("inv",), maxclock=3, recycles=(1,)))]
@@ -237,7 +238,7 @@ def main(chk):
         if label == "live":
             return tlc.run("Pool", c, os.path.join(chk.work, "live"), workers=wk, timeout=900, keep_stdout=False, heap="4g")
         return tlc.run("Pool", c, os.path.join(chk.work, "mc%d" % i), workers=wk, timeout=1700, keep_stdout=False,
-                       coverage=quick or i in (0, 4), heap="4g" if quick else "8g")
+                       coverage=quick or i in (0, 5), heap="4g" if quick else "8g")
     if os.environ.get("VERIF_POOL_DEV_SKIP_MC") == "1":      # development aid only (mutant iteration); never set by ./check or tools/
         runs = runs[:1]
         FOOT = []
